@@ -18,10 +18,7 @@ fn prebuilt_ck(n: u8, cap: usize, max: usize) -> LruCache<CK, u8, BH> {
     let mut c: LruCache<CK, u8, BH> = LruCache::with_capacity_and_hasher(max, cap, BH::default());
     let mut k = 0u8;
     while k < n {
-        let u = UnhingedEntry::new(CK(k), k);
-        c.current_size += u.size();
-        let e = Entry::new(u, c.seal, c.seal.get().next);
-        c.insert_untracked(e);
+        link_new(&mut c, UnhingedEntry::new(CK(k), k));
         k += 1;
     }
     unsafe { HASHES = 0; }
